@@ -121,12 +121,17 @@ class Impl:
         from ipv8.dht import routing
         self.routing = routing
         self.me = me
-        self.rt = routing.RoutingTable(me.to_bytes(W // 8, "big"))
-        if m is not None:
-            self.rt.trie[""].max_size = m
-        self.m = self.rt.trie[""].max_size
         self.ntag = 0
         self.fail = None        # first oracle failure: (signature, what)
+        try:
+            self.rt = routing.RoutingTable(me.to_bytes(W // 8, "big"))
+            if m is not None:
+                self.rt.trie[""].max_size = m
+            self.m = self.rt.trie[""].max_size
+        except Exception as e:
+            self.rt = None
+            self.m = m or 8
+            self.fail = ("RoutingTable.__init__:raises", f"constructing the table raised {type(e).__name__}: {str(e)[:120]}")
         self.splits = 0
         self.rich_query = False
 
@@ -138,6 +143,8 @@ class Impl:
     def keys(self):
         """all (key, bucket) pairs by walking the python trie nodes directly (not through suffixes())"""
         out = []
+        if self.rt is None:
+            return out
         stack = [("", self.rt.trie.root)]
         while stack:
             k, n = stack.pop()
@@ -151,6 +158,12 @@ class Impl:
         return [n for _, b in self.keys() for n in b.nodes.values()]
 
     def check_tree(self, where: str):
+        try:
+            return self._check_tree(where)
+        except Exception as e:
+            return self._fail("RoutingTable.get_bucket:raises", f"{where}: inspecting the table raised {type(e).__name__}: {str(e)[:120]}")
+
+    def _check_tree(self, where: str):
         rt = self.rt
         kb = self.keys()
         ks = [k for k, _ in kb]
@@ -191,8 +204,40 @@ class Impl:
         return live, live[:k]
 
     # -- ops ---------------------------------------------------------------------------------------------------
+    SITE = {"add": "RoutingTable.add", "set": "RoutingTable.get", "rmbad": "RoutingTable.remove_bad_nodes",
+            "closest": "RoutingTable.closest_nodes", "get": "RoutingTable.get", "bucket": "RoutingTable.get_bucket",
+            "dump": "RoutingTable.trie", "genid": "Bucket.generate_id"}
+
+    def fallback_line(self, op):
+        """the protocol line of an op computed without touching the code under test"""
+        kind = op[0]
+        if kind == "add":
+            return f"rt.add {bits(op[1])} {1 if op[2] >= 2 else 0} {op[3]} {op[4]} {self.ntag - 1}"
+        if kind == "set":
+            return f"rt.set {bits(op[1])} {1 if op[2] >= 2 else 0} {op[3]}"
+        if kind == "closest":
+            return f"rt.closest {bits(op[1])} {op[2]} {bits(op[3]) if op[3] is not None else 'none'}"
+        if kind in ("get", "bucket"):
+            return f"rt.{kind} {bits(op[1])}"
+        if kind == "genid":
+            return f"rt.genid ? {W} {op[2]}"
+        return {"rmbad": "rt.rmbad", "dump": "rt.dump"}.get(kind, "rt." + kind)
+
     def apply(self, op, idx: int):
-        """returns (protocol line, canonical implementation reply)"""
+        """returns (protocol line, canonical implementation reply).  Any exception the code under test raises on these
+        legal calls is classified here: it is an oracle failure `<call site>:raises` (the property promises a valid tree,
+        an exact answer and an id inside the bucket for every history), never a harness crash."""
+        try:
+            return self._apply(op, idx)
+        except Exception as e:  # raised by ipv8 code (harness bugs would show on the unchanged tree as well)
+            import traceback
+            tb = traceback.extract_tb(e.__traceback__)
+            where = next((f"{fr.filename.split('/ipv8/')[-1]}:{fr.lineno}" for fr in reversed(tb) if "/ipv8/" in fr.filename), "?")
+            self._fail(self.SITE.get(op[0], op[0]) + ":raises",
+                       f"op {idx}: {op[0]} raised {type(e).__name__}: {str(e)[:120]} (at {where})")
+            return self.fallback_line(op), "raised:" + type(e).__name__
+
+    def _apply(self, op, idx: int):
         kind = op[0]
         rt = self.rt
         thr = 2
@@ -289,7 +334,11 @@ class Impl:
             k, b = kb[which % len(kb)]
             # oracle: the real random source
             for _ in range(4):
-                g = b.generate_id()
+                try:
+                    g = b.generate_id()
+                except Exception as e:
+                    self._fail("Bucket.generate_id:raises", f"op {idx}: bucket {k!r}: generate_id raised {type(e).__name__}: {e}")
+                    break
                 gb = bits(int.from_bytes(g, "big")) if len(g) == W // 8 else None
                 if gb is None or not gb.startswith(k) or not b.owns(g):
                     self._fail("Bucket.generate_id:outside-bucket",
@@ -301,9 +350,12 @@ class Impl:
             self.routing.random = fake
             try:
                 g = b.generate_id()
+                rep = bits(int.from_bytes(g, "big"), 8 * len(g)) if g else "-"
+            except Exception as e:
+                self._fail("Bucket.generate_id:raises", f"op {idx}: bucket {k!r}, draw {r}: generate_id raised {type(e).__name__}: {e}")
+                rep = "raised:" + type(e).__name__
             finally:
                 self.routing.random = saved
-            rep = bits(int.from_bytes(g, "big"), 8 * len(g)) if g else "-"
             return f"rt.genid {pb(k)} {W} {r}", rep
         raise ValueError(kind)
 
@@ -438,9 +490,22 @@ def gen_scenario(ctx: Ctx, rng, n_ops: int, profile: str):
     return im, me, m, ops, lines, replies
 
 
-def shrink(me, m, ops, sig, budget=120):
-    """greedy chunk removal on the implementation only, keeping the same oracle signature"""
+SHRINK_RUNS = 60          # candidate re-executions per shrink
+SHRINK_OP_BUDGET = 12000  # executed ops per shrink (closest_nodes counts 30: the real walk is slow on deep tries)
+SHRINKS_PER_RUN = 3       # later failures are reported unshrunk (cut at the failing op)
+
+
+def _cost(ops):
+    return sum(30 if o[0] == "closest" else 1 for o in ops)
+
+
+def shrink(me, m, ops, sig):
+    """greedy chunk removal on the implementation only, keeping the same oracle signature; strictly bounded"""
+    budget = {"runs": SHRINK_RUNS, "ops": SHRINK_OP_BUDGET}
+
     def fails(cand):
+        budget["runs"] -= 1
+        budget["ops"] -= _cost(cand)
         try:
             im, _, _ = run_ops(me, m, cand, upto=True)
         except Exception:
@@ -448,12 +513,11 @@ def shrink(me, m, ops, sig, budget=120):
         return im.fail is not None and im.fail[0] == sig
     cur = list(ops)
     chunk = max(1, len(cur) // 2)
-    while chunk >= 1 and budget > 0:
+    while chunk >= 1 and budget["runs"] > 0 and budget["ops"] > 0:
         i = 0
         changed = False
-        while i < len(cur) and budget > 0:
+        while i < len(cur) and budget["runs"] > 0 and budget["ops"] > 0:
             cand = cur[:i] + cur[i + chunk:]
-            budget -= 1
             if cand and fails(cand):
                 cur = cand
                 changed = True
@@ -466,8 +530,12 @@ def shrink(me, m, ops, sig, budget=120):
 
 def report_failure(ctx: Ctx, im, me, m, ops):
     sig, what = im.fail
-    small = shrink(me, m, ops, sig) if len(ops) > 3 else ops
-    ctx.oracle_fail(sig, what, {"kind": "routing", "me": me, "m": m, "ops": [list(o) for o in small],
+    n_shrunk = ctx.extra.setdefault("shrinks", 0)
+    small = ops
+    if len(ops) > 3 and n_shrunk < SHRINKS_PER_RUN:
+        ctx.extra["shrinks"] = n_shrunk + 1
+        small = shrink(me, m, ops, sig)
+    ctx.oracle_fail(sig, what, {"kind": "routing", "me": me, "m": m, "ops": [list(o) for o in small][-3000:],
                                 "original_ops": len(ops)})
 
 
@@ -487,6 +555,9 @@ def routing_scenarios(ctx: Ctx, n: int, sizes, use_model=True):
     import hashlib
     rng = ctx.rng
     for s in range(n):
+        if len(ctx.failures) >= (1 if ctx.searching else 12):
+            ctx.count("scenarios-skipped-after-failures", n - s)
+            break
         profile = rng.choice(["mixed", "mixed", "mixed", "clustered", "clustered", "clustered", "narrow", "foreign",
                               "uniform", "deep"])
         n_ops = min(rng.choice(sizes), 250) if profile == "deep" else rng.choice(sizes)
@@ -498,7 +569,7 @@ def routing_scenarios(ctx: Ctx, n: int, sizes, use_model=True):
         nn = len(im.all_nodes())
         ctx.count("final-nodes:%s" % ("%d0+" % (nn // 10)))
         ctx.count("capacity:%d" % im.m)
-        depth = max(len(k) for k, _ in im.keys())
+        depth = max((len(k) for k, _ in im.keys()), default=0)
         ctx.count("max-depth:%s" % ("%d0+" % (depth // 10)))
         key = hashlib.sha1(repr((me, m, ops)).encode()).hexdigest()
         ctx.case(key, nontrivial=bool(im.splits and im.rich_query), n=len(ops))
@@ -543,6 +614,23 @@ def small_scope(ctx: Ctx, w: int, length: int, m: int, mes, use_model=True):
 
 
 # ---- the bare Trie class -----------------------------------------------------------------------------------------
+TRIE_SITE = {"set": "Trie.__setitem__", "del": "Trie.__delitem__", "get": "Trie.__getitem__",
+             "lpi": "Trie.longest_prefix_item", "suf": "Trie.suffixes", "vals": "Trie.values"}
+
+
+def trie_do(ctx: Ctx, t, op, hist):
+    """trie_apply with classification: an exception other than the documented KeyError on these legal calls is an
+    oracle failure `<method>:raises` (the routing table relies on every one of them), not a harness crash"""
+    try:
+        return trie_apply(t, op)
+    except Exception as e:
+        ctx.oracle_fail(TRIE_SITE[op[0]] + ":raises", f"after {len(hist)} ops, {op!r} raised {type(e).__name__}: {str(e)[:100]}",
+                        {"kind": "trie", "ops": [list(o) for o in hist] + [list(op)]})
+        line = {"set": f"t.set {pb(op[1]) if len(op) > 1 else ''} {op[2] if len(op) > 2 else ''}", "vals": "t.vals"}.get(
+            op[0], f"t.{op[0]} {pb(op[1]) if len(op) > 1 else ''}")
+        return line, "raised:" + type(e).__name__
+
+
 def trie_apply(t, op):
     kind = op[0]
     if kind == "set":
@@ -572,6 +660,13 @@ def trie_apply(t, op):
 
 
 def trie_oracle(ctx: Ctx, t, ref: dict, where, replay):
+    try:
+        _trie_oracle(ctx, t, ref, where, replay)
+    except Exception as e:
+        ctx.oracle_fail("Trie:raises", f"{where}: a query raised {type(e).__name__}: {str(e)[:100]}", replay)
+
+
+def _trie_oracle(ctx: Ctx, t, ref: dict, where, replay):
     """reference = plain dict of key -> value; checks the Trie queries the routing table relies on"""
     for k, v in ref.items():
         try:
@@ -622,7 +717,7 @@ def trie_random(ctx: Ctx, n_seq: int, use_model=True):
             else:
                 op = ("vals",)
             ops.append(op)
-            ln, rep = trie_apply(t, op)
+            ln, rep = trie_do(ctx, t, op, ops[:-1])
             if op[0] == "del" and key in ref:
                 del ref[key]
                 # known quirk, mirrored by the model: deleting the last key raises KeyError after the deletion
@@ -659,14 +754,14 @@ def trie_exhaustive(ctx: Ctx, L: int, use_model=True):
             lines.append("t.new")
             replies.append("ok")
             for k in order:
-                ln, rep = trie_apply(t, ("set", k, ref[k]))
+                ln, rep = trie_do(ctx, t, ("set", k, ref[k]), [])
                 lines.append(ln)
                 replies.append(rep)
             return t
         t = build()
         trie_oracle(ctx, t, ref, f"trie with keys {present}", {"kind": "trie", "ops": [["set", k, ref[k]] for k in order]})
         for q in full:
-            ln, rep = trie_apply(t, ("lpi", q))
+            ln, rep = trie_do(ctx, t, ("lpi", q), [("set", k, ref[k]) for k in order])
             lines.append(ln)
             replies.append(rep)
             # oracle: longest proper-or-equal non-empty prefix present (the root key "" is never reported by the code)
@@ -676,7 +771,7 @@ def trie_exhaustive(ctx: Ctx, L: int, use_model=True):
                 ctx.oracle_fail("Trie.longest_prefix_item:wrong", f"keys {present}: longest_prefix_item({q!r}) = {rep}, expected {want}",
                                 {"kind": "trie", "ops": [["set", k, ref[k]] for k in order] + [["lpi", q]]})
         for k in keys:
-            ln, rep = trie_apply(t, ("suf", k))
+            ln, rep = trie_do(ctx, t, ("suf", k), [("set", a, ref[a]) for a in order])
             lines.append(ln)
             replies.append(rep)
         ctx.case(("trie-ex", L, mask), nontrivial=len(present) > 1, n=len(full) + len(keys))
@@ -684,14 +779,14 @@ def trie_exhaustive(ctx: Ctx, L: int, use_model=True):
         if len(present) <= 4 or mask % 7 == 0:
             for k in keys:
                 t2 = build()
-                ln, rep = trie_apply(t2, ("del", k))
+                ln, rep = trie_do(ctx, t2, ("del", k), [("set", a, ref[a]) for a in order])
                 lines.append(ln)
                 replies.append(rep)
                 ref2 = {a: b for a, b in ref.items() if a != k}
                 trie_oracle(ctx, t2, ref2, f"trie with keys {present} after del {k!r}",
                             {"kind": "trie", "ops": [["set", a, ref[a]] for a in order] + [["del", k]]})
                 for op in (("vals",), ("suf", ""), ("lpi", full[mask % len(full)])):
-                    ln, rep = trie_apply(t2, op)
+                    ln, rep = trie_do(ctx, t2, op, [("set", a, ref[a]) for a in order] + [("del", k)])
                     lines.append(ln)
                     replies.append(rep)
                 ctx.case(("trie-ex-del", L, mask, k), nontrivial=k in ref, n=4)
@@ -729,10 +824,75 @@ def known_regressions(ctx: Ctx, use_model=True):
         compare(ctx, lines, replies, {"kind": "routing", "me": me, "m": None, "ops": [list(o) for o in ops]})
 
 
+def genid_sweep(ctx: Ctx, use_model=True, factor=4):
+    """Bucket.generate_id on buckets of every depth, densely on the deepest ones: for suffix lengths n = 0..12
+    (prefix length 160-n) at least factor*2^n real random draws (seeded, so that the replay redraws the same values), plus
+    the scripted draws 0, 1, 2^n-1, 2^n, 2^n+1 and random ones against the model; then a sample of shallower depths."""
+    from ipv8.dht import routing
+    rng = ctx.rng
+    lines, replies = [], []
+    depths = [(W - n, max(16, factor * (1 << n))) for n in range(0, 13)] + [(L, 40) for L in (0, 1, 2, 3, 7, 8, 9, 63, 64, 65, 100, 127, 128, 140)]
+    for L, draws in depths:
+        prefix = bits(rng.getrandbits(L), L) if L else ""
+        b = routing.Bucket(prefix)
+        seed = rng.getrandbits(32)
+        replay = {"kind": "genid", "prefix": prefix, "draws": draws, "random_seed": seed}
+        ctx.count("genid-sweep-suffix-bits:%s" % (W - L if W - L <= 12 else "13+"), draws)
+        bad = genid_draws(routing, b, prefix, draws, seed)
+        if bad is not None:
+            ctx.oracle_fail(bad[0], f"bucket with a {L}-bit prefix (suffix {W - L} bits), draw {bad[2]} of {draws} (random.seed({seed})): {bad[1]}",
+                            replay)
+        ctx.case(("genid", L, seed), nontrivial=L > 0, n=draws)
+        n = W - L
+        for r in [0, 1, (1 << n) - 1, 1 << n, (1 << n) + 1, rng.getrandbits(160), rng.getrandbits(max(1, n))]:
+            fake = FakeRandom(r)
+            saved = routing.random
+            routing.random = fake
+            try:
+                g = b.generate_id()
+                rep = bits(int.from_bytes(g, "big"), 8 * len(g)) if g else "-"
+                if len(g) != W // 8 or not rep.startswith(prefix):
+                    ctx.oracle_fail("Bucket.generate_id:outside-bucket",
+                                    f"bucket with prefix {prefix!r}: with the random source answering {fake.calls} -> {r} the id is {g.hex()}",
+                                    {"kind": "genid-scripted", "prefix": prefix, "r": r})
+            except Exception as e:
+                rep = "raised:" + type(e).__name__
+                ctx.oracle_fail("Bucket.generate_id:raises",
+                                f"bucket with prefix {prefix!r}: with the random source answering {fake.calls} -> {r}: {type(e).__name__}: {e}",
+                                {"kind": "genid-scripted", "prefix": prefix, "r": r})
+            finally:
+                routing.random = saved
+            lines.append(f"rt.genid {pb(prefix)} {W} {r}")
+            replies.append(rep)
+            ctx.case(("genid-scripted", L, r), nontrivial=True)
+    if use_model and ctx.model_ok:
+        d = ctx.driver()
+        model = d.batch(lines)
+        for ln, a, b_ in zip(lines, model, replies):
+            if a != b_:
+                ctx.disagree(f"generate_id: `{ln[:80]}`: model {a[:170]!r} != implementation {b_[:170]!r}",
+                             {"kind": "genid-lines", "line": ln, "model": a, "impl": b_})
+                break
+
+
+def genid_draws(routing, b, prefix, draws, seed):
+    """real random source, seeded; returns (signature, what, draw index) for the first bad draw, else None"""
+    routing.random.seed(seed)
+    for i in range(draws):
+        try:
+            g = b.generate_id()
+        except Exception as e:
+            return ("Bucket.generate_id:raises", f"generate_id raised {type(e).__name__}: {e}", i)
+        if len(g) != W // 8 or not bits(int.from_bytes(g, "big")).startswith(prefix) or not b.owns(g):
+            return ("Bucket.generate_id:outside-bucket", f"generated id {g.hex()} does not start with the bucket prefix {prefix[-24:]!r}", i)
+    return None
+
+
 def run(ctx: Ctx):
     if ctx.replay_input is not None:
         return replay(ctx, ctx.replay_input)
     known_regressions(ctx)
+    genid_sweep(ctx, factor=ctx.scale(4, 64))
     trie_exhaustive(ctx, ctx.scale(2, 3))
     trie_random(ctx, ctx.scale(300, 6000))
     small_scope(ctx, 3, ctx.scale(3, 4), 2, [0, 5 << (W - 3)] if not ctx.thorough() else [i << (W - 3) for i in range(8)])
@@ -744,11 +904,19 @@ def run(ctx: Ctx):
 
 
 def search(ctx: Ctx, reason: str):
+    """implementation-only, bounded (about one more quick run); stops at the first failing input"""
     known_regressions(ctx, use_model=False)
+    genid_sweep(ctx, use_model=False, factor=16)
+    if ctx.failures:
+        return
     trie_exhaustive(ctx, 2, use_model=False)
-    trie_random(ctx, 3000, use_model=False)
-    small_scope(ctx, 3, 4, 2, [i << (W - 3) for i in range(8)], use_model=False)
-    routing_scenarios(ctx, 250, [150, 400, 800, 2000], use_model=False)
+    trie_random(ctx, 1500, use_model=False)
+    if ctx.failures:
+        return
+    small_scope(ctx, 3, 4, 2, [0, 3 << (W - 3), 5 << (W - 3)], use_model=False)
+    if ctx.failures:
+        return
+    routing_scenarios(ctx, 60, [150, 300, 400, 700], use_model=False)
 
 
 def replay(ctx: Ctx, rec: dict):
@@ -765,12 +933,35 @@ def replay(ctx: Ctx, rec: dict):
             print("replay: property holds on this input")
         ctx.case(("replay",), True)
         compare(ctx, lines, replies, {"kind": "routing", "me": r["me"], "m": r.get("m")})
+    elif r.get("kind") in ("genid", "genid-scripted"):
+        from ipv8.dht import routing
+        b = routing.Bucket(r["prefix"])
+        if r["kind"] == "genid":
+            bad = genid_draws(routing, b, r["prefix"], r["draws"], r["random_seed"])
+        else:
+            fake = FakeRandom(r["r"])
+            saved = routing.random
+            routing.random = fake
+            try:
+                g = b.generate_id()
+                ok = len(g) == W // 8 and bits(int.from_bytes(g, "big")).startswith(r["prefix"])
+                bad = None if ok else ("Bucket.generate_id:outside-bucket", f"id {g.hex()}", 0)
+            except Exception as e:
+                bad = ("Bucket.generate_id:raises", f"{type(e).__name__}: {e}", 0)
+            finally:
+                routing.random = saved
+        if bad is not None:
+            print(f"replay: property FAILS: {bad[0]}: {bad[1]} (draw {bad[2]})")
+            ctx.oracle_fail(bad[0], bad[1], r)
+        else:
+            print("replay: property holds on this input")
+        ctx.case(("replay",), True)
     elif r.get("kind") == "trie":
         from ipv8.dht.trie import Trie
         t = Trie("01")
         ref = {}
         for op in r["ops"]:
-            ln, rep = trie_apply(t, tuple(op))
+            ln, rep = trie_do(ctx, t, tuple(op), [])
             print(f"replay: {ln} -> {rep}")
             if op[0] == "set":
                 ref[op[1]] = op[2]
